@@ -164,6 +164,30 @@ theorem init_config_once (rootPath : Path) (root : Tree) (hw : wfRoot root) (out
     rw [ha] at hqa
     exact (List.nodup_append.mp this).2.2 q hqa q hq rfl
 
+/-- Neither the scan nor `Init` mentions a package-level variable (regenerated from pkg/utils/file and
+pkg/hook/hook_manager.go on every run): a start leaves nothing behind for the next start. -/
+theorem discovery_stateless : Facts.c20ProcessState = [] := rfl
+
+theorem starts_eq_map (rootPath : Path) (σ : ProcState) (ts : List Tree) :
+    starts rootPath σ ts = ts.map (fun t => (discover rootPath t, init rootPath t (outcomeAt rootPath t))) := by
+  induction ts generalizing σ with
+  | nil => rfl
+  | cons t ts ih => simp [starts, startOnce, ih]
+
+/-- **C20.4 `every_start_exact`** "At start": at EVERY start of a hook manager in one process. For every
+sequence of trees (the hooks directory as it is at the 1st, 2nd, … start — changed in between in any
+way), the `k`-th start finds exactly the hook paths of the `k`-th tree and loads them as
+`init_config_once` says for that tree, whatever the earlier trees were. -/
+theorem every_start_exact (rootPath : Path) (trees : List (Name × List Tree)) (k : Nat) (hk : k < trees.length) :
+    ∃ r, (starts rootPath procInit (trees.map fun t => Tree.dir t.1 t.2))[k]? = some r ∧
+      (∀ p, p ∈ r.1 ↔ IsHookPath rootPath (.dir trees[k].1 trees[k].2) p) ∧
+      r.2 = init rootPath (.dir trees[k].1 trees[k].2) (outcomeAt rootPath (.dir trees[k].1 trees[k].2)) := by
+  refine ⟨(discover rootPath (.dir trees[k].1 trees[k].2),
+    init rootPath (.dir trees[k].1 trees[k].2) (outcomeAt rootPath (.dir trees[k].1 trees[k].2))), ?_, ?_, rfl⟩
+  · rw [starts_eq_map]
+    simp [List.getElem?_map, List.getElem?_eq_getElem hk]
+  · intro p; exact discover_iff rootPath _ _ p
+
 /-! ### Non-vacuity and witnesses -/
 
 /-- a tree with a hook in the root, one in a sub-directory, a `lib` directory, a hidden directory,
@@ -195,6 +219,14 @@ example : (init (bytesOf "h") (.dir (bytesOf "h") sampleChildren) (fun _ => .ok)
 example : let root := Tree.dir (bytesOf "h") sampleChildren
     (init (bytesOf "h") root (outcomeAt (bytesOf "h") root)).asked = [bytesOf "h/a.sh"] ∧
     (init (bytesOf "h") root (outcomeAt (bytesOf "h") root)).err = some (bytesOf "h/a.sh") := by decide
+
+/-- two starts; in between `sub/b` got its execute bit and `sub/deep/e` appeared (nothing directly in
+the hooks directory changed): the second start sees both -/
+example : (starts (bytesOf "h") procInit
+    [.dir (bytesOf "h") [.dir (bytesOf "sub") [.file (bytesOf "a") 0o755 .ok, .file (bytesOf "b") 0o644 .ok, .dir (bytesOf "deep") []]],
+     .dir (bytesOf "h") [.dir (bytesOf "sub") [.file (bytesOf "a") 0o755 .ok, .file (bytesOf "b") 0o755 .ok,
+        .dir (bytesOf "deep") [.file (bytesOf "e") 0o700 .ok]]]]).map (·.1) =
+    [[bytesOf "h/sub/a"], [bytesOf "h/sub/a", bytesOf "h/sub/b", bytesOf "h/sub/deep/e"]] := by decide
 
 /-- Regression witness for the repaired defect (the walk applied its `lib`/hidden test to the hooks
 directory itself): a hooks directory named `lib` or `.hooks` yielded no hooks, although its file is a
